@@ -123,7 +123,7 @@ pub fn run(args: &Args) -> i32 {
         let run = RUNS[(idx / 256) as usize];
         let (b, ch) = ((idx % 256 / 32) as usize, (idx % 32) as u8);
         let board = A16_BOARDS[b].0;
-        let raw = wire_samples(ch, WIRE_NS, if ch % 8 == 1 { 1 } else { 0 });
+        let raw = wire_samples(ch, WIRE_NS, match ch % 8 { 1 => 1, 2 => 5, 3 => 6, _ => 0 });
         let ts = 0x1000_0000 + idx as u32;
         let mut banks: Banks = vec![("ATAT".into(), trg_packet(ts)), (wire_bank_name(board, ch), wire_packet(board, ch, &raw))];
         banks.extend(ignored_banks());
@@ -518,6 +518,39 @@ pub fn run(args: &Args) -> i32 {
         }
         judge(run_sim, &banks, 1, None, json!({"fault": "two banks for wire C090", "samples": [ns[d[0] as usize], ns[d[1] as usize]], "swapped": d[2] == 1}), loc);
     });
+    // malformed block headers inside CRC-valid chunks: every block of a 4-channel message, odd and even sample counts
+    {
+        let devs: [(&str, i64); 7] = [("channel index +1", 1), ("channel index := 0", -1000), ("channel index := 80", 1000), ("channel index := that of the previous block", -2000), ("sample count +1", 2), ("sample count -1", -2), ("sample count := 0", 0)];
+        rep.run("malformed-pad-blocks", 2 * 4 * devs.len() as u64, 120, true, "a 4-channel pad message with 130 / 131 requested samples: in each of the 4 blocks the channel index (+1, 0, 80, the previous block's) or the sample count (+1, -1, 0) is wrong; chunk CRCs are valid: the event is rejected", |idx, loc| {
+            let d = unrank(idx, &[devs.len() as u64, 4, 2]);
+            let req = 130 + d[2] as u16;
+            let ros = [4u16, 17, 40, 79];
+            let chans: Vec<(u16, Vec<i16>)> = ros.iter().map(|&ro| (ro, pad_samples(ro, req as usize, 0))).collect();
+            let mut payload = pwb_payload("12", 2, req, &chans);
+            let stride = 4 + 2 * req as usize + if req % 2 == 1 { 2 } else { 0 };
+            let off = 52 + d[1] as usize * stride;
+            let (what, dv) = devs[d[0] as usize];
+            let cur_idx = u16::from_le_bytes([payload[off], payload[off + 1]]);
+            match dv {
+                1 => payload[off..off + 2].copy_from_slice(&(cur_idx + 1).to_le_bytes()),
+                -1000 => payload[off..off + 2].copy_from_slice(&0u16.to_le_bytes()),
+                1000 => payload[off..off + 2].copy_from_slice(&80u16.to_le_bytes()),
+                -2000 => {
+                    if d[1] == 0 {
+                        return;
+                    }
+                    let prev = [payload[off - stride], payload[off - stride + 1]];
+                    payload[off..off + 2].copy_from_slice(&prev);
+                }
+                2 => payload[off + 2..off + 4].copy_from_slice(&(req + 1).to_le_bytes()),
+                -2 => payload[off + 2..off + 4].copy_from_slice(&(req - 1).to_le_bytes()),
+                _ => payload[off + 2..off + 4].copy_from_slice(&0u16.to_le_bytes()),
+            }
+            let mut banks: Banks = vec![("ATAT".into(), trg_packet(88))];
+            banks.extend(pwb_banks("12", 2, &payload, 8192));
+            judge(run_sim, &banks, 88, None, json!({"fault": format!("pad block header: {what}"), "block": d[1], "requested_samples": req}), loc);
+        });
+    }
     // a duplicate on every wire and on every chip (a "seen" set that does not cover the whole detector)
     rep.run("duplicate-on-every-element", (256 + 71 * 4) * 2, 120, true, "every one of the 256 wires: two full banks with different samples; every (board, chip) of the simulation run: two messages in different chunk groups whose packets name the same chip (same pads, different samples); both orders: the event is rejected", |idx, loc| {
         let (k, swapped) = (idx / 2, idx % 2 == 1);
